@@ -208,6 +208,12 @@ BI, AI, OI = (z3.Function(n, I, I, I) for n in ("block_index_of_inside_value", "
 RI, GI = (z3.Function(n, I, I, I) for n in ("result_index_of_inside_value", "region_index_of_inside_value"))
 
 
+def is_arg_of_region(r, x):
+    """x is a block argument of a block of r (the first disjunct of the definition, with its witnesses)."""
+    bx = BLOCKS(r)[BI(r, x)]
+    return z3.And(INSIDE_R(r, x), AI(r, x) >= 0, AI(r, x) < NARGSB(bx), x == ARGSB(bx)[AI(r, x)])
+
+
 def inside_region_def(r):
     """INSIDE_R(r, .) unfolded one level (definition, both directions): a block argument of a block of r, or defined by/inside an op of a block of r."""
     x, k, i = z3.Ints("ir!x ir!k ir!i")
@@ -270,6 +276,9 @@ def clone_into_post(old, st, r, vm, bm):
             ("entries-for-values-defined-outside-the-region-are-kept", forall([x], z3.Implies(z3.And(old.dict_has(vm, x), z3.Not(INSIDE_R(r, x))),
                                                                                                  st.dict_val(vm, x) == old.dict_val(vm, x)))),
             ("every-value-defined-inside-the-region-is-registered", forall([x], z3.Implies(INSIDE_R(r, x), st.dict_has(vm, x)))),
+            ("every-block-argument-of-the-region-is-mapped-to-a-value-created-by-this-call (never to a pre-existing image the caller's mapper happened to hold)",
+             forall([d, o], z3.Implies(z3.And(d >= 0, d < NBLOCKS(r), o >= 0, o < NARGSB(BLOCKS(r)[d])), z3.And(
+                 st.dict_val(vm, ARGSB(BLOCKS(r)[d])[o]) != 0, z3.Not(old.alloc()[st.dict_val(vm, ARGSB(BLOCKS(r)[d])[o])]))))),
             ("pre-existing-dictionaries-other-than-the-mappers-unchanged", forall([d], z3.Implies(z3.And(d != vm, d != bm, old.alloc()[d]),
                                                                                                      z3.And(st.dict_dom(d) == old.dict_dom(d), st.dict_vals(d) == old.dict_vals(d))))),
             ("pre-existing-operand-lists-untouched", forall([o], z3.Implies(old.alloc()[o], z3.And(st.seq_len("_operands", o) == old.seq_len("_operands", o),
@@ -463,9 +472,11 @@ class CloneInto(Spec):
         def b_insert_arg(ex, st, args, kw):
             # new_block.insert_arg(type, idx, location): afterwards new_block.args[idx] is the inserted argument (C01); recorded for the read that follows
             st.ghost["ins_blk"], st.ghost["ins_idx"] = args[0].z, z_int(args[2])
-            return [Res("val", None, st)]
+            na = st.new_object("new_arg")
+            st.ghost["ins_arg"] = na
+            return [Res("val", VRef(na, "BlockArgument"), st)]
 
-        b_insert_arg.ghost_modifies = ["ins_blk", "ins_idx"]
+        b_insert_arg.ghost_modifies = ["ins_blk", "ins_idx", "ins_arg"]
         self.calls = {"Block": Builtin(b_block, "Block(): a fresh block"),
                       "dest.insert_block": noop("Region.insert_block: block-list surgery on the destination (C01); touches no mapper, no operand list"),
                       ".insert_arg": Builtin(b_insert_arg, "Block.insert_arg on a block created by this call (C01): args[idx] is then the new argument"),
@@ -502,14 +513,14 @@ class CloneInto(Spec):
 
             if isinstance(base, VRef) and base.cls == "BlockArgs":
                 ex.oblige(st, "call-pre", "args[idx]:reads-the-argument-inserted-just-before", z3.And(st.ghost["ins_blk"] == base.z, st.ghost["ins_idx"] == z_int(idx)), "aux")
-                return [Res("val", VRef(st.new_object("new_arg"), "BlockArgument"), st)]
+                return [Res("val", VRef(st.ghost["ins_arg"], "BlockArgument"), st)]
             return None
 
         return {"__getattr__": getattr_, "__iter__": iter_, "__getitem__": getitem_,
                 "__setters__": {"name_hint": Builtin(setter_name_hint, "name_hint setter stores the (validated) name")}}
 
     def setup(self, st, inst):
-        st.ghost["ins_blk"], st.ghost["ins_idx"] = z3.IntVal(0), z3.IntVal(-1)
+        st.ghost["ins_blk"], st.ghost["ins_idx"], st.ghost["ins_arg"] = z3.IntVal(0), z3.IntVal(-1), z3.IntVal(0)
         r = st.declare_input("self", z3.Int("self"))
         dest = st.declare_input("dest", z3.Int("dest"))
         vm = st.declare_input("value_mapper", z3.Int("value_mapper"))
@@ -530,7 +541,10 @@ class CloneInto(Spec):
                 forall([k], z3.Implies(z3.And(k >= 0, k < NBLOCKS(r)), z3.And(BLOCKS(r)[k] != 0, al[BLOCKS(r)[k]]))),
                 forall([b, i], z3.Implies(z3.And(al[b], i >= 0, i < NARGSB(b)), z3.And(ARGSB(b)[i] != 0, al[ARGSB(b)[i]]))),
                 forall([b, i], z3.Implies(z3.And(al[b], i >= 0, i < NOPSB(b)), z3.And(OPSB(b)[i] != 0, al[OPSB(b)[i]]))))),
-            A("operand-lists-have-lengths", forall([i], st.seq_len("_operands", i) >= 0))]
+            A("operand-lists-have-lengths", forall([i], st.seq_len("_operands", i) >= 0)),
+            A("a-value-has-one-definition: a block argument of the region is not defined by or inside an op of the region",
+              forall([k, i, b, z3.Int("cp!j")], z3.Implies(z3.And(k >= 0, k < NBLOCKS(r), i >= 0, i < NOPSB(BLOCKS(r)[k]), b >= 0, b < NBLOCKS(r), z3.Int("cp!j") >= 0,
+                                                                 z3.Int("cp!j") < NARGSB(BLOCKS(r)[b])), z3.Not(INSIDE_O(OPSB(BLOCKS(r)[k])[i], ARGSB(BLOCKS(r)[b])[z3.Int("cp!j")])))))]
 
     def _common(self, st, a):
         fe = self._fentry
@@ -549,7 +563,11 @@ class CloneInto(Spec):
         x, j = z3.Ints("cj!x cj!j")
         k = lv["k"]
         blk = lambda kk: BLOCKS(r)[kk]
+        fresh = lambda v: z3.And(st.dict_val(vm, v) != 0, z3.Not(fe.alloc()[st.dict_val(vm, v)]))
+        d_, o_ = z3.Ints("cj!d cj!o")
         done_blocks = lambda kk: A("values-of-processed-blocks-registered", forall([x], z3.Implies(z3.And(INSIDE_R(r, x), BI(r, x) < kk), st.dict_has(vm, x))))
+        done_args = lambda kk: A("arguments-of-processed-blocks-are-mapped-to-values-created-by-this-call",
+                                 forall([d_, o_], z3.Implies(z3.And(d_ >= 0, d_ < kk, o_ >= 0, o_ < NARGSB(blk(d_))), z3.And(st.dict_has(vm, ARGSB(blk(d_))[o_]), fresh(ARGSB(blk(d_))[o_])))))
         if n == 0:
             # for block in self.blocks: new_blocks.append(Block()); block_mapper[block] = new_block
             nb = lv["env"]["new_blocks"]
@@ -558,15 +576,16 @@ class CloneInto(Spec):
                                           A("value-mapper-untouched", z3.And(st.dict_dom(vm) == fe.dict_dom(vm), st.dict_vals(vm) == fe.dict_vals(vm)))]
         if n == 1:
             # for block, new_block in zip(self.blocks, new_blocks)
-            return self._common(st, a) + [done_blocks(k)]
+            return self._common(st, a) + [done_blocks(k), done_args(k)]
         k1 = lv["outer"][1]
         b = blk(k1)
-        args_done = lambda ii: A("arguments-of-this-block-registered", forall([j], z3.Implies(z3.And(j >= 0, j < ii), st.dict_has(vm, ARGSB(b)[j]))))
+        args_done = lambda ii: A("arguments-of-this-block-registered-to-values-created-by-this-call", forall([j], z3.Implies(z3.And(j >= 0, j < ii), z3.And(
+            st.dict_has(vm, ARGSB(b)[j]), fresh(ARGSB(b)[j])))))
         if n == 2:
             # for idx, block_arg in enumerate(block.args): value_mapper[block_arg] = new_arg
-            return self._common(st, a) + [done_blocks(k1), args_done(k)]
+            return self._common(st, a) + [done_blocks(k1), done_args(k1), args_done(k)]
         # for op in block.ops: new_block.add_op(op.clone(value_mapper, block_mapper, clone_operands=False))
-        return self._common(st, a) + [done_blocks(k1), args_done(NARGSB(b)),
+        return self._common(st, a) + [done_blocks(k1), done_args(k1), args_done(NARGSB(b)),
                                       A("values-of-processed-ops-registered", forall([j, x], z3.Implies(z3.And(j >= 0, j < k, INSIDE_O(OPSB(b)[j], x)), st.dict_has(vm, x))))]
 
     def post(self, old, st, a, res):
